@@ -194,9 +194,10 @@ def _ymd(y, m, d):
 class Env:
     """Evaluation environment: tables (for sub-queries), hooks for aggregates."""
 
-    def __init__(self, tables=None):
+    def __init__(self, tables=None, table=None):
         self.tables = tables or {}
         self.subq_cache = {}
+        self.table = table          # the table of the enclosing statement: a FROM-less sub-select reads it
 
 
 def ev(e, row, env, group=None):
@@ -309,7 +310,7 @@ def ev(e, row, env, group=None):
     if k == 'subq':
         key = id(e)
         if key not in env.subq_cache:
-            names, types, rows = run_query(e.q, env.tables)
+            names, types, rows = run_query(e.q, env.tables, default_table=env.table)
             vals = [r[0] for r in rows]
             env.subq_cache[key] = vals if vals else None
         return env.subq_cache[key]
@@ -395,7 +396,7 @@ def sort_rows(rows, keyfuncs_desc):
     return sorted(rows, key=functools.cmp_to_key(compare))
 
 
-def resolve_table(q, tables):
+def resolve_table(q, tables, default_table=None):
     if q.subquery is not None:
         names, types, rows = run_query(q.subquery, tables)
         if len(set(names)) != len(names):
@@ -403,13 +404,15 @@ def resolve_table(q, tables):
         return ModelTable('<subquery>', list(zip(names, types)), rows)
     if q.table is not None:
         return tables[q.table]
+    if default_table is not None:
+        return default_table
     return tables['postings'] if 'postings' in tables else tables['']
 
 
-def run_query(q, tables):
+def run_query(q, tables, default_table=None):
     """-> (names, types, rows). rows are tuples of the visible targets."""
-    env = Env(tables)
-    table = resolve_table(q, tables)
+    table = resolve_table(q, tables, default_table)
+    env = Env(tables, table)
     if q.star:
         targets = [ir.Target(ir.col(n, table.coltype(n))) for n in table.wildcard]
     else:
